@@ -1,0 +1,23 @@
+//! Read-only hooks for the verification harness in /verif, compiled only with
+//! the `verif-hooks` feature: `fend --verif-hook <op> <args…>` runs an internal
+//! function on the given arguments and prints its result. No behaviour change
+//! when the feature is off, and none when it is on unless `--verif-hook` is the
+//! first argument.
+#![allow(clippy::all, clippy::pedantic)]
+
+/// Returns Some(exit code) if the arguments were a hook request.
+pub(crate) fn maybe_run(args: &[String]) -> Option<i32> {
+	if args.first().map(String::as_str) != Some("--verif-hook") {
+		return None;
+	}
+	match args.get(1).map(String::as_str) {
+		Some("version") => {
+			println!("1");
+			Some(0)
+		}
+		_ => {
+			eprintln!("unknown verif hook");
+			Some(2)
+		}
+	}
+}
